@@ -15,6 +15,7 @@ PAGES = {
     'models.rst': ('Model', 'model_type'),
     'optimizer.rst': ('Optimizer', 'optimizer'),
     'instrument.rst': ('Instrument', 'instrument'),
+    'observation.rst': ('Observation', 'observation'),
 }
 SELVARS = ['profile_type', 'chemistry_type', 'gas_type', 'planet_type', 'star_type', 'model_type', 'optimizer',
            'instrument']
@@ -32,6 +33,8 @@ def parse(repo):
         listvar = None            # the selector variable the current bullet list enumerates
         current = None            # (section or 'Gas' or 'Contribution', [keywords]) the next Keywords table belongs to
         page_default = None
+        if page == 'observation.rst':
+            current = ('Observation', ['*'])
         last_sel_line = -10
         in_kw_table = False
         recent_var = None
